@@ -11,6 +11,7 @@ fn once(case: &Value, run: &Run) -> Acc {
         "query" => crate::checks::common::replay_query(case, run),
         "parse-fresh" => crate::checks::lang::replay_fresh(case, run),
         "parse" | "parse-eval" => crate::checks::lang::replay(case, run),
+        "built-query" => crate::checks::robust::replay_built_query(case, run),
         "built-name" => crate::checks::robust::replay_built_name(case, run),
         "eval-ok" => crate::checks::robust::replay_eval_ok(case, run),
         "ladder" => crate::checks::robust::replay_ladder(case, run),
